@@ -343,6 +343,7 @@ def cmd_check(prop, tier):
             yield (prop, tier, seed, i)
             i += 1
 
+    known_early, _ = load_known(prop)
     ctx = multiprocessing.get_context('fork')
     pool = ctx.Pool(NPROC, initializer=_init_pool, initargs=(bins, rundir))
     agg = {'jobs': 0, 'runs': 0, 'keys': set(), 'probes': {}, 'steps': 0, 'accesses': 0, 'events': 0, 'samples': [], 'errors': [], 'extra': {}}
@@ -382,8 +383,9 @@ def cmd_check(prop, tier):
                 v = dict(v); v['job'] = rep['i']; v['spec'] = rep.get('spec')
                 violations.append(v)
             if rep['viol']:
-                nmine = sum(1 for v in violations if v['prop'] == prop)
-                nhang = sum(1 for v in violations if v['prop'] == prop and ('HANG' in v['sig'] or 'TIMEOUT' in v['sig']))
+                fresh_now = [v for v in violations if v['prop'] == prop and match_known(v, known_early) is None]
+                nmine = len(fresh_now)
+                nhang = sum(1 for v in fresh_now if 'HANG' in v['sig'] or 'TIMEOUT' in v['sig'])
                 if (nmine >= 60 or nhang >= 3) and time.time() < deadline[0]:
                     # plenty of candidates (or runs that eat the watchdog): stop generating, go and confirm them
                     deadline[0] = time.time()
